@@ -70,6 +70,9 @@ func raceOps() []raceOp {
 			_ = e.w.Wk.NumConcurrency()
 			m := e.w.Wk.Metrics()
 			_ = m.Submitted() + m.Completed() + m.Successful() + m.Failed()
+			if e.batch != nil && e.batch.NumPend != nil {
+				_ = e.batch.NumPend()
+			}
 		}},
 		{"StatusCtx", func(e *raceEnv) {
 			_ = e.w.Wk.Context()
